@@ -1,7 +1,7 @@
 from reghelp import *
 
 CHECK = dict(
-    runs=runs3('h_cvar', (16, 8, 16), (96, 48, 160)),
+    runs=runs3('h_cvar', (16, 8, 16), (64, 32, 96)),
     par=6,
     level='exploration',
     rule='one evaluation = one seeded execution of the condition-variable stress (lock kind mutex or spinlock, 1-4 vCPUs, timed and untimed waiters, '
